@@ -45,7 +45,8 @@ def run(task):
             env = dict(os.environ, SAVF_TARGET='target-w%d' % slot)
             for p in props:
                 rr = subprocess.run([os.path.join(V, 'check'), p, '--repo', d + '/repo', '--no-evidence'], stdout=subprocess.PIPE, stderr=subprocess.STDOUT, text=True, env=env)
-                res[p] = rr.returncode
+                # exit 1 counts only with its VIOLATION line: a crash of the checker is not a detection
+                res[p] = rr.returncode if not (rr.returncode == 1 and 'VIOLATION property=' not in rr.stdout) else 3
                 keys[p] = re.findall(r'^  key    (\S+)', rr.stdout, re.M)[:6]
             return (kind, name, res, keys)
         finally:
